@@ -14,15 +14,6 @@ const (
 	stInitialized = int(world.StageInitialized)
 )
 
-// offsetFor rotates the clock offset around the threshold: -1s, 0, +1s (sometimes +-1ms instead of +-1s).
-func offsetFor(n int, rng *rand.Rand) int {
-	off := []int{-1000, 0, 1000}[n%3]
-	if off != 0 && rng.Intn(6) == 0 {
-		off /= 1000
-	}
-	return off
-}
-
 func draw(reaper string, n int, rng *rand.Rand) Spec {
 	switch reaper {
 	case "expiration":
@@ -60,7 +51,7 @@ func drawExpiration(n int, rng *rand.Rand) Spec {
 		}
 	}
 	if len(cands) > 0 {
-		S.Target, S.Threshold, S.OffsetMs = cands[rng.Intn(len(cands))], "expire", offsetFor(n, rng)
+		S.Target, S.Threshold, S.OffsetMs = cands[rng.Intn(len(cands))], "expire", 0
 	}
 	return S
 }
@@ -76,14 +67,11 @@ func drawGC(n int, rng *rand.Rand) Spec {
 	for i := 0; i < nc; i++ {
 		c := ClaimSpec{Pool: rng.Intn(np), StepBeforeMs: rng.Intn(30000)}
 		if i == 0 {
-			// core grid: {Registered, Initialized} x {vanished, listed} x node state
+			// core grid: node state x {Registered+vanished, Initialized+vanished, Initialized+vanished, Initialized+listed}
 			g := n % 16
-			c.Stage = []int{stRegistered, stInitialized}[g%2]
-			c.Vanish = (g/2)%4 != 3 // three of four vanished
-			c.Node = nodeStates[(g/2+g/8)%4]
-			if g >= 8 && !c.Vanish {
-				c.Node = nodeStates[g%4]
-			}
+			c.Node = nodeStates[g%4]
+			c.Stage = []int{stRegistered, stInitialized, stInitialized, stInitialized}[g/4]
+			c.Vanish = g/4 != 3
 		} else {
 			c.Stage = []int{stLaunched, stAppeared, stRegistered, stRegistered, stInitialized, stInitialized, stInitialized}[rng.Intn(7)]
 			c.Vanish = rng.Intn(10) < 7
@@ -130,7 +118,7 @@ func drawLiveness(n int, rng *rand.Rand) Spec {
 	}
 	c0, thr := kind(n % 8)
 	S.Claims = append(S.Claims, c0)
-	S.Threshold, S.OffsetMs = thr, offsetFor(n/8, rng)
+	S.Threshold = thr
 	for i := rng.Intn(3); i > 0; i-- {
 		c, _ := kind(rng.Intn(8))
 		S.Claims = append(S.Claims, c)
@@ -139,7 +127,7 @@ func drawLiveness(n int, rng *rand.Rand) Spec {
 }
 
 func drawHealth(n int, rng *rand.Rand) Spec {
-	S := Spec{Reaper: "health", Order: "target-first", Target: 0, Threshold: "toleration", OffsetMs: offsetFor(n, rng)}
+	S := Spec{Reaper: "health", Order: "target-first", Target: 0, Threshold: "toleration"}
 	tol := []int{300, 600, 1800}
 	S.Policies = []PolicySpec{
 		{Type: "Ready", Status: "False", TolerateS: tol[rng.Intn(3)]},
